@@ -270,6 +270,47 @@
   (window (churn))
   (print (ev/take c)))
 
+(defscenario channel-wrapped-ring
+  # items in every position of a wrapped ring buffer, each reachable only through the channel
+  (def chans @[])
+  (for k 0 10
+    (def c (ev/chan 32))
+    (repeat k (ev/give c :rot) (ev/take c))          # rotate head/tail by k
+    (for i 0 3 (ev/give c (fresh (string k "-" i))))
+    (array/push chans c))
+  (def big (ev/chan 64))
+  (repeat 5 (ev/give big :rot) (ev/take big))
+  (for i 0 9 (ev/give big (fresh-str (string "big-" i))))   # forces a resize of a wrapped ring
+  (window (churn))
+  (each c chans (while (> (ev/count c) 0) (print (ev/take c))))
+  (while (> (ev/count big) 0) (print (ev/take big))))
+
+(defscenario env-on-stack-ev-parked
+  # a task parked in the event loop (not finished!) whose closure environment is still on its stack
+  (def out @[])
+  (ev/go (fn []
+           (var counter 0)
+           (def bump (fn [] (++ counter)))
+           (bump)
+           (ev/sleep 0.01)
+           (++ counter)
+           (bump)
+           (array/push out counter (bump) counter)))
+  (def c (ev/chan))
+  (ev/go (fn []
+           (var acc @"")
+           (def add (fn [x] (buffer/push acc x)))
+           (add "a")
+           (def v (ev/take c))
+           (buffer/push acc "b")
+           (add v)
+           (array/push out (string acc))))
+  (ev/sleep 0)
+  (window (churn))
+  (ev/give c "c")
+  (ev/sleep 0.02)
+  (print (string/format "%j" out)))
+
 (defscenario channel-pending-writer
   (def c (ev/chan 0))
   (ev/go (fn [] (ev/give c (fresh "cpw")) (print "writer resumed")))
